@@ -141,6 +141,29 @@ func ruleLoopShapes(keep func(string) bool, floorD4, floorD5 int) ruleFunc {
 							c.R.Bad("D4-member-delegation", cons, p.Pos(m.Pos()), "the loop over "+exprKey(rangeX)+" never passes the member to a function or method: nested members (a collection inside a collection) are not recursed into")
 						}
 					}
+					// L5: growing the slice being ranged over: the new elements are never visited
+					if rsx, isRange := m.(*ast.RangeStmt); isRange {
+						if xid, ok := ast.Unparen(rsx.X).(*ast.Ident); ok {
+							xobj := pkg.TypesInfo.Uses[xid]
+							ast.Inspect(body, func(k ast.Node) bool {
+								as, ok := k.(*ast.AssignStmt)
+								if !ok || len(as.Lhs) != 1 || len(as.Rhs) != 1 {
+									return true
+								}
+								lid, ok := as.Lhs[0].(*ast.Ident)
+								if !ok || pkg.TypesInfo.Uses[lid] != xobj || xobj == nil {
+									return true
+								}
+								if call, ok := as.Rhs[0].(*ast.CallExpr); ok {
+									if fid, ok := call.Fun.(*ast.Ident); ok && fid.Name == "append" {
+										c.R.Bad("L5-range-grow", fmt.Sprintf("%s#range(%s)", key, xid.Name), p.Pos(as.Pos()),
+											"the loop appends to "+xid.Name+", the slice it ranges over: range evaluates its operand once, so the appended members are never visited")
+									}
+								}
+								return true
+							})
+						}
+					}
 					// D5
 					if c.P.memberSlice(t) {
 						accum := false
